@@ -5,6 +5,13 @@ Pacing: after every write the driver waits until the daemon's stdin pipe is empt
 i.e. until the daemon's read() has returned exactly the bytes just written; so every chunk boundary chosen here
 is a read() boundary in iauth_read() (chunks above 4096 bytes are cut further by the daemon's own read size).
 
+Two refinements of a delivery (both part of the variant, so the clean reference run is shared):
+  glue    junk lines written directly in front of a line of the history, with NO barrier line in between, so that junk
+          and line can sit in one read() chunk and are handled by one call of iauth_read() back to back;
+  prompt  a chunk of exactly k * 4096 bytes (the daemon's read size) whose last line is a barrier line, made by
+          padding with junk lines; after it the input stays OPEN and nothing more is written until the barrier's
+          answer has been seen or PROMPT_TIMEOUT has passed ("Prompt" record: answers due / seen).
+
 Nothing here judges the property: the driver renders, runs processes, cuts the output at the barrier lines
 (`-1 ? stats2`), parses lines into the records of daemon.py and selects by position which reference output belongs
 to which step.  Equality, completion and clean end of input are judged by TLC."""
@@ -23,6 +30,8 @@ from . import tlc as T
 from .core import MachineryError
 
 BARRIER = b"-1 ? stats2\n"
+READ_SIZE = 4096           # evbuffer_read(iauth_in, fd, 4096)
+PROMPT_TIMEOUT = 5.0       # the unchanged daemon answers a barrier within milliseconds
 _STATS = re.compile(rb"S iauth :\d+-\d+ reqs alloc, (\d+) in use;")
 _TAGSER = re.compile(rb"^(X \S+ [0-9a-f]+)_[0-9a-f]+ ")
 
@@ -65,11 +74,33 @@ class StreamDaemon(D.Daemon):
             return None
         return False
 
-    def feed(self, chunks, feed_timeout=10.0):
+    def answers(self):
+        """Barrier replies completed so far (lines that are exactly "s")."""
+        return self.out.count(b"\ns\n") + (1 if self.out.startswith(b"s\n") else 0)
+
+    def await_answers(self, due, timeout):
+        """Input stays open, nothing is written: wait until `due` barrier replies have been printed.
+        Returns (replies seen, milliseconds waited, process gone?)."""
+        t0 = time.time()
+        dead = False
+        while self.answers() < due:
+            rem = t0 + timeout - time.time()
+            if rem <= 0:
+                break
+            r = self._drain_out(min(0.05, rem))
+            if r is None or (r is False and self.p.poll() is not None):
+                dead = True
+                break
+        return self.answers(), int((time.time() - t0) * 1000), dead
+
+    def feed(self, chunks, feed_timeout=10.0, awaits=None):
         """Write the chunks, each one only after the previous one has been read by the daemon.
+        awaits: {chunk index: number of barrier replies due once that chunk is in} - wait for them (input open,
+        nothing written meanwhile) before going on; what was seen is appended to self.prompts.
         Returns "ok", "died" (EPIPE / process gone) or "hang" (pipe not emptied in time)."""
         fd = self.p.stdin.fileno()
-        for ch in chunks:
+        self.prompts = []
+        for ci, ch in enumerate(chunks):
             pos = 0
             while pos < len(ch):
                 piece = ch[pos:pos + 32768]
@@ -98,6 +129,9 @@ class StreamDaemon(D.Daemon):
                             self.state = "hang"
                             return self.state
             self._drain_out(0)
+            if awaits and ci in awaits:
+                got, ms, dead = self.await_answers(awaits[ci], PROMPT_TIMEOUT)
+                self.prompts.append({"due": awaits[ci], "got": got, "ms": ms, "dead": 1 if dead else 0, "len": len(ch)})
         return self.state
 
     def finish(self, wait=8.0):
@@ -172,6 +206,47 @@ def layout(lines):
     return lay, pos
 
 
+def pad_bytes(n, style, uid):
+    """Exactly n bytes (n >= 0) of complete junk lines for the unknown client id `uid`: "lines" = unknown-command lines of
+    64 bytes, "long" = one over-long line, "late" = short data lines for the unknown id ("<uid> n yyyyyyyyy"),
+    "blank" = empty lines, "crlf" = empty CR LF lines."""
+    if style == "crlf":
+        return b"\r\n" * (n // 2) + b"\n" * (n % 2)
+    if style == "blank":
+        return b"\n" * n
+    head = (b"%d n " if style == "late" else b"%d Z ") % uid
+    unit = {"lines": 64, "late": len(head) + 10, "long": n}.get(style, 64)
+    out = []
+    while n > 0:
+        m = min(unit, n)
+        if n - m < len(head) + 2:
+            m = n                                   # the last line takes the remainder
+        if m < len(head) + 2:
+            out.append(b"\n" * m)
+        else:
+            out.append(head + b"y" * (m - len(head) - 1) + b"\n")
+        n -= m
+    return b"".join(out)
+
+
+def glue_bytes(glue):
+    """variant["glue"] = [[item index, latin-1 text of one junk line, crlf?], ...] -> {index: bytes written directly in
+    front of that item's line} (several entries for one index: in the order given)."""
+    pre = {}
+    for (k, raw, crlf) in glue or []:
+        pre[k] = pre.get(k, b"") + raw.encode("latin-1") + (b"\r\n" if crlf else b"\n")
+    return pre
+
+
+def glued_layout(lines, glue):
+    """(lines with the glue in front, layout, total, {index: offset in the stream where the item's own line starts})."""
+    pre = glue_bytes(glue)
+    merged = [pre.get(k, b"") + ln for k, ln in enumerate(lines)]
+    lay, total = layout(merged)
+    own = {k: lay[k][0] + len(pre[k]) for k in pre if k < len(lines)}
+    return merged, lay, total, own
+
+
 def cut_chunks(stream, cuts):
     cuts = sorted(set(c for c in cuts if 0 < c < len(stream)))
     res, a = [], 0
@@ -192,7 +267,15 @@ def variant_chunks(stream, lay, var):
         return [stream[i:i + 1] for i in range(len(stream))]
     if m in ("split", "trunc"):
         return cut_chunks(stream, var.get("cuts", []))
+    if m == "sep":
+        # line by line in the strict sense: a write ends at every line end (glue | line | barrier)
+        return cut_chunks(stream, [b for (a, b, c) in lay] + [c for (a, b, c) in lay] + list(var.get("_own", [])))
     raise ValueError(m)
+
+
+def _quiet(o):
+    """Parsed output without oper notices (a glued junk line may print one in front of the line's own output)."""
+    return [m for m in o if m.get("k") != ">"]
 
 
 def _strip_stats(lines):
@@ -228,27 +311,52 @@ def run_variant(bld, workdir, svcs, items, var, ref, rid, timeout_on=True):
     """One delivery of the full stream (with junk) on a fresh daemon; returns trace records."""
     d = StreamDaemon(bld, workdir, svcs, timeout=("1h" if timeout_on else None))
     lines = render_items(d, items)
-    lay, total = layout(lines)
+    glue = var.get("glue") or []
+    glued = {k for (k, raw, crlf) in glue}
+    lines, lay, total, own = glued_layout(lines, glue)
+    awaits = None
+    if var["mode"] == "prompt":
+        # pad the chunk [line q .. barrier of line p] with junk lines in front to exactly k * READ_SIZE bytes
+        q, p, kk = var["q"], var["p"], var["k"]
+        content = lay[p][2] - lay[q][0]
+        while kk * READ_SIZE < content:
+            kk += 1
+        lines[q] = pad_bytes(kk * READ_SIZE - content, var.get("style", "lines"), var.get("uid", 1999)) + lines[q]
+        glued.add(q)
+        lay, total = layout(lines)
     stream = b"".join(ln + BARRIER for ln in lines)
     cutoff = var.get("trunc")
     if cutoff is not None:
         stream = stream[:cutoff]
-    chunks = variant_chunks(stream, lay, var)
-    st = d.feed(chunks) if d.state == "ok" else d.state
+    if var["mode"] == "prompt":
+        chunks = cut_chunks(stream, [lay[q][0], lay[p][2]])
+        ci = 1 if lay[q][0] > 0 else 0
+        if len(chunks[ci]) % READ_SIZE or not chunks[ci].endswith(BARRIER):
+            raise MachineryError("prompt delivery: chunk of %d bytes is not a multiple of %d ending in a barrier" % (len(chunks[ci]), READ_SIZE))
+        awaits = {ci: p + 1}
+    else:
+        chunks = variant_chunks(stream, lay, dict(var, _own=sorted(own.values())) if var["mode"] == "sep" else var)
+    st = d.feed(chunks, awaits=awaits) if d.state == "ok" else d.state
+    prompts = getattr(d, "prompts", [])
     rc, san, ub, killed = d.finish(wait=8.0 if st == "ok" else 1.0)
     steps, rest, in_stats = segment(d.out)
     # which steps lie wholly inside what was sent
     want = len([1 for (a, b, c) in lay if c <= len(stream)])
     recs = [{"e": "Run", "rid": rid, "mode": var["mode"] + ("+trunc" if cutoff is not None else ""), "want": want,
              "len": len(stream), "chunks": len(chunks)}]
+    for pr in prompts:
+        recs.append(dict(pr, e="Prompt", rid=rid, size=READ_SIZE))
     for k, (lns, n) in enumerate(steps):
         it = items[k] if k < len(items) else {"junk": True}
         o = [d.parse_line(x) for x in lns]
-        rec = {"e": "S", "k": k + 1, "j": 1 if it["junk"] else 0, "o": o, "oc": canon(o), "n": n, "roc": "", "rn": -7}
+        rec = {"e": "S", "k": k + 1, "j": 1 if it["junk"] else 0, "o": o, "oc": canon(o), "n": n, "roc": "", "rn": -7,
+               "g": 1 if k in glued else 0, "ocq": "", "rocq": ""}
         if not it["junk"]:
             ro = ref["outs"].get(k)
             ro, rec["rn"] = (ro if ro is not None else ([{"k": "NOREF"}], -7))
             rec["roc"] = canon(ro)
+            if k in glued:
+                rec["ocq"], rec["rocq"] = canon(_quiet(o)), canon(_quiet(ro))
         recs.append(rec)
     # the tail: the first line that is not followed by a complete barrier
     eofrec = {"e": "Eof", "cut": 1 if cutoff is not None else 0, "exit": (rc if rc is not None else -9), "san": san[:600], "hang": 1 if (st == "hang" or killed) else 0,
@@ -277,7 +385,12 @@ def run_variant(bld, workdir, svcs, items, var, ref, rid, timeout_on=True):
             eofrec["rj"] = 1
         elif L > a:
             eofrec["part"] = 1       # a well-formed line cut inside its text: not a line of the stream
-    eofrec["restc"], eofrec["rrefc"] = canon(eofrec["rest"]), canon(rref)
+    if want in glued and not eofrec["rj"]:
+        # junk glued in front of the cut-off line may have printed oper notices of its own
+        eofrec["restc"], eofrec["rrefc"] = canon(_quiet(eofrec["rest"])), canon(_quiet(rref))
+        ralt = _quiet(ralt) if ralt is not None else None
+    else:
+        eofrec["restc"], eofrec["rrefc"] = canon(eofrec["rest"]), canon(rref)
     eofrec["hasalt"], eofrec["raltc"] = (1, canon(ralt)) if ralt is not None else (0, "")
     recs.append(eofrec)
     return recs, ub, len(steps)
@@ -311,7 +424,8 @@ def _hist_worker(args):
                 nruns += 1
                 nsteps += done
                 e = recs[-1]
-                if e["exit"] != 0 or e["san"] or e["hang"] or e["died"] or e["done"] != e["want"]:
+                if (e["exit"] != 0 or e["san"] or e["hang"] or e["died"] or e["done"] != e["want"]
+                        or any(r["e"] == "Prompt" and r["got"] < r["due"] for r in recs)):
                     nbad += 1
                 for r in recs:
                     tf.write(json.dumps(r, separators=(",", ":")) + "\n")
